@@ -15,5 +15,6 @@ def shape_prefetch_cut_needs_nxdomain : Bool := true
 def shape_rfc8020_stop_guard : Bool := true
 def shape_validator_error_returns_error : Bool := true
 def shape_writemsg_cut_needs_nxdomain : Bool := true
+def typesset_mismatches : List Nat := []
 
 end SdnsVerif.Gen.C02
